@@ -22,6 +22,28 @@ RULE = ("valid generated projects with subkeys, namespaces, defaulted locales, f
 ALPHABET = gen.SAFE_TEXT_ATOMS + ["\u0001", "\u0008", "\u000c", "\u001f", "\u007f", "\u0085", "\u009f", "\u00a0", "\u00ad", "\u200b", "\u200e",
                                   "\u2028", "\u2029", "\ufeff", "\U0001F600", "\U0010FFFF", "\\u{a0}", "\\0", "\"\"", "\\\\", "\r\n", "\r", "\u0000"[:0] + "\u0000"]
 
+# every C0 / C1 control, DEL, and the other characters a JSON / JS / Rust writer may special-case, one by one
+EVERY_SPECIAL = [chr(c) for c in range(0x20)] + [chr(0x7f)] + [chr(c) for c in range(0x80, 0xa0)] + list("\"\\/'`$<>&") + \
+    ["\u00a0", "\u00ad", "\u061c", "\u200b", "\u200c", "\u200d", "\u200e", "\u200f", "\u2028", "\u2029", "\u202e", "\u2060", "\ufeff", "\ufffd",
+     "\ufffe", "\uffff", "\ud7ff", "\ue000", "\U00010000", "\U0001F600", "\U000E0001", "\U0010FFFF"]
+ALPHABET = ALPHABET + EVERY_SPECIAL
+
+
+def sweep_project():
+    """Deterministic coverage of the string contents: one key per special character (alone and between letters), and one
+    key holding all of them, in two locales (the second shares half of the strings, so indices differ)."""
+    en, fr = [], []
+    for i, ch in enumerate(EVERY_SPECIAL):
+        en.append(["c%d" % i, {"k": "lit", "ty": "str", "v": ch}])
+        en.append(["m%d" % i, {"k": "lit", "ty": "str", "v": "a" + ch + "b"}])
+        fr.append(["c%d" % i, {"k": "lit", "ty": "str", "v": ch if i % 2 else ch + ch}])
+        fr.append(["m%d" % i, {"k": "lit", "ty": "str", "v": "a" + ch + "b" + ("" if i % 3 else "!")}])
+    en.append(["all", {"k": "lit", "ty": "str", "v": "".join(EVERY_SPECIAL)}])
+    fr.append(["all", {"k": "lit", "ty": "str", "v": "".join(reversed(EVERY_SPECIAL))}])
+    return {"cfg": {"default": "en", "locales": ["en", "fr"], "namespaces": None, "inherits": {}, "locales_dir": None},
+            "data": {(None, "en"): en, (None, "fr"): fr}}
+
+
 IDX_RE = re.compile(r"index_translations\s*::\s*<\s*(\d+)(?:usize)?\s*,\s*(\d+)(?:usize)?\s*>")
 ARR_RE = re.compile(r"\[\s*(?:&\s*(?:'static\s*)?str|Box\s*<\s*str\s*>)\s*;\s*(\d+)(?:usize)?\s*\]")
 STRINGS_RE = re.compile(r"const\s+STRINGS\s*:\s*&\s*\[\s*&\s*str\s*;\s*(\d+)(?:usize)?\s*\]\s*=\s*&\s*\[", re.S)
@@ -227,7 +249,7 @@ def run(tier, seed, replay=None):
     rng = rng_for(seed, "C11")
     n = 200 if tier == "quick" else 8000
     cfg = GenCfg(p_fk=0.35, p_sub=0.3, max_depth=3, namespaces=0.35, p_absent=0.15, p_null=0.15, text_alphabet=ALPHABET, p_inherits=0.4)
-    projs = [projects.gen_valid_project(rng, cfg) for _ in range(n)]
+    projs = [sweep_project()] + [projects.gen_valid_project(rng, cfg) for _ in range(n - 1)]
     # toml needs translations-path for the csr variant; harmless elsewhere
     for p in projs:
         p["cfg"]["translations_path"] = "i18n/{locale}.json"
